@@ -56,6 +56,27 @@ func genWS(r *kit.Rng, wi int, small bool) WS {
 		}
 		ws.Tables = append(ws.Tables, t)
 	}
+	// refs, NOT NULL
+	for i := range ws.Tables {
+		for j := range ws.Tables[i].Fields {
+			f := &ws.Tables[i].Fields[j]
+			if f.K == 11 && r.Chance(1, 2) {
+				for _, o := range ws.Tables {
+					if o.Kind == "cdoc" || o.Kind == "wdoc" {
+						f.Ref = o.Name
+						break
+					}
+				}
+			}
+			f.Req = r.Chance(1, 5)
+		}
+	}
+	// an abstract base table and a table derived from it (inherited fields first, then own fields)
+	if r.Chance(1, 2) {
+		base := Table{Name: p + "Base", Kind: "cdoc", Abstract: true, Fields: []Field{{N: "bx", K: 3}, {N: "by", K: 8}}}
+		der := Table{Name: p + "Der", Kind: "cdoc", Base: base.Name, Fields: append(append([]Field{}, base.Fields...), genFields(r, 1+r.Intn(3), anyKinds, false)...)}
+		ws.Tables = append(ws.Tables, base, der)
+	}
 	// an object and an odoc are always there so that functions have argument candidates
 	ws.Tables = append(ws.Tables,
 		Table{Name: p + "Obj1", Kind: "object", Fields: []Field{{N: "x", K: 3}, {N: "y", K: 8}}},
@@ -156,7 +177,7 @@ func enumerate(r *kit.Rng, s *Schema) []Edit {
 			l          []Field
 		}{}
 		for _, t := range ws.Tables {
-			if t.Pkg != "" {
+			if t.Pkg != "" || t.Base != "" || (t.Abstract && s.referenced(t.Name)) {
 				continue
 			}
 			lists = append(lists, struct {
@@ -225,6 +246,33 @@ func enumerate(r *kit.Rng, s *Schema) []Edit {
 				Edit{Kind: "add_table", WS: wi, New: nm, TK: kit.Pick(r, []string{"cdoc", "wdoc", "object", "crecord"})},
 				Edit{Kind: "add_view", WS: wi, New: nm},
 				Edit{Kind: "add_fn", WS: wi, New: nm, K: uint8(r.Intn(2)), To: p + "Obj1"})
+		}
+		for _, t := range ws.Tables {
+			if t.Pkg != "" {
+				continue
+			}
+			if t.Abstract && s.referenced(t.Name) {
+				out = append(out, Edit{Kind: "append_base_field", WS: wi, Name: t.Name, New: "bz", K: kit.Pick(r, anyKinds)})
+			}
+			if len(t.Unique) > 0 {
+				out = append(out, Edit{Kind: "remove_unique", WS: wi, Name: t.Name})
+			}
+			for i, f := range t.Fields {
+				if t.Base != "" || t.Abstract {
+					break
+				}
+				if i == 0 || f.Req {
+					out = append(out, Edit{Kind: "toggle_required", WS: wi, Name: t.Name, I: i})
+				}
+				if f.K == 11 {
+					for _, o := range ws.Tables {
+						if (o.Kind == "cdoc" || o.Kind == "wdoc") && o.Name != f.Ref && !o.Abstract {
+							out = append(out, Edit{Kind: "change_ref", WS: wi, Name: t.Name, I: i, To: o.Name})
+							break
+						}
+					}
+				}
+			}
 		}
 		for _, pn := range []string{"aaa", "zzz"} {
 			out = append(out, Edit{Kind: "add_pkg_table", WS: wi, To: pn, New: "PDoc"})
